@@ -38,6 +38,7 @@ struct Cb {
     items: Option<J>,
     built: Option<J>,
     built_stolen: Option<J>,
+    consts: Option<J>,
     elab: Option<J>,
     elab_stolen: i64,
     crate_name: String,
@@ -56,6 +57,7 @@ fn main() {
         items: None,
         built: None,
         built_stolen: None,
+        consts: None,
         elab: None,
         elab_stolen: 0,
         crate_name: String::new(),
@@ -103,6 +105,19 @@ impl rustc_driver::Callbacks for Cb {
             let defines_opaque = !tcx.opaque_types_defined_by(*d).is_empty();
             (!is_const, !defines_opaque)
         });
+        // 2a. initialisers of named consts and statics (tables the rules read, e.g. a list of status codes): before
+        //     anything else, because building a function body may const-evaluate (and steal) them
+        let const_owners: Vec<LocalDefId> = tcx
+            .hir_body_owners()
+            .filter(|d| matches!(tcx.def_kind(*d), DefKind::Const { .. } | DefKind::AssocConst { .. } | DefKind::Static { .. }))
+            .collect();
+        let mut const_bodies: Vec<(LocalDefId, Body<'tcx>)> = Vec::new();
+        for d in &const_owners {
+            let steal = tcx.mir_built(*d);
+            if !steal.is_stolen() {
+                const_bodies.push((*d, steal.borrow().clone()));
+            }
+        }
         let mut bodies: Vec<(LocalDefId, Body<'tcx>)> = Vec::new();
         let mut stolen: Vec<J> = Vec::new();
         for d in &owners {
@@ -145,6 +160,14 @@ impl rustc_driver::Callbacks for Cb {
             fns.push(fn_view(tcx, *d, body));
         }
         self.built = Some(J::Arr(fns));
+        let mut cfns = Vec::new();
+        for (d, body) in &const_bodies {
+            if proc_macro {
+                break;
+            }
+            cfns.push(fn_view(tcx, *d, body));
+        }
+        self.consts = Some(J::Arr(cfns));
         let mut efns = Vec::new();
         for (d, body) in &elab_bodies {
             if proc_macro {
@@ -180,6 +203,7 @@ impl rustc_driver::Callbacks for Cb {
             ("items", self.items.take().unwrap_or(J::Null)),
             ("built", self.built.take().unwrap_or(J::Null)),
             ("built_stolen", self.built_stolen.take().unwrap_or(J::Null)),
+            ("consts", self.consts.take().unwrap_or(J::Null)),
             ("elab", self.elab.take().unwrap_or(J::Null)),
             ("elab_stolen", J::Int(self.elab_stolen as i128)),
         ]);
